@@ -28,7 +28,8 @@ Pipeline
      round trip, printed variants agree, accepted token strings are in the documented syntax (and the
      other way round), no panic (parser, matcher, ParseError::report), every case under a watchdog.
   3. record: seeded random deeper patterns (depth <= 5, thorough 6; series of <= 3; hop sequences <= 12),
-     random ACLs with <= 6 entries, random token strings (<= 12 tokens) with the real verdicts, validated
+     random ACLs with <= 6 entries, random token strings (<= 12 tokens, including the unsupported ! and &),
+     random sets of weighted policies {acl?, pattern?} (WeightedPolicies::match_highest) with the real verdicts, validated
      line by line by TLC (Trace_PathPolicy); random character strings for totality of the three parsers.
 
 Reading adopted (demands less)
@@ -194,16 +195,17 @@ def run(c):
         w = e["ws"][x["x"] - 1] if x["x"] else None
         if x["kind"] == "AclEmptyPath":
             key = "AclEmptyPath:default-deny"
-        elif x["kind"] in ("Lang", "Acl"):
+        elif x["kind"] in ("Lang", "Acl", "Weighted"):
             key = "%s:verdict" % x["kind"]
         else:
             key = "%s:pattern" % x["kind"]
         what = {"Lang": "hop pattern %r: the real verdict on hops %s differs from the denoted language",
                 "Acl": "ACL %s: the real verdict on hops %s differs from 'every hop's first matching entry allows'",
                 "AclEmptyPath": "ACL %s: the empty hop sequence %s is denied (the default is applied although no hop needs it)",
+                "Weighted": "weighted policies %s: match_highest on hops %s does not return the highest-weight policy that allows them",
                 "Unsound": "the parser accepts %r, which is not in the documented pattern syntax%s",
                 "Reject": "the parser rejects %r, which is in the documented pattern syntax%s"}[x["kind"]] % (
-                    e.get("text") or json.dumps(e.get("acl")), json.dumps(w) if w is not None else "")
+                    e.get("text") or json.dumps(e.get("acl") or [(p_["w"], p_["hasacl"], p_["haspat"], p_["text"]) for p_ in e.get("pols", [])]), json.dumps(w) if w is not None else "")
         c.violation(key, what + " [trace]", {"line": e, "x": x["x"]})
     for x in c.printed_json(r, "DRIFT"):
         c.drift("trace line %d: the I-layer (%s) differs from the real verdict although the property holds" % (x["l"], x["kind"]))
